@@ -254,7 +254,7 @@ def main(argv):
                 "VERIF_TIER": tier, "VERIF_SHARD": "%d/%d" % (s, n), "VERIF_OUT": outdir,
                 "VERIF_REPLAY_DIR": replay_dir, "VERIF_SEED": str(seed), "VERIF_PROPERTY": pid,
                 "GODEBUG": "randautoseed=0", "VERIF_DIR": VERIF, "VERIF_REPO_DIR": REPO,
-                "VERIF_HELPER_DIR": scratch,
+                "VERIF_HELPER_DIR": scratch, "VERIF_PART": p["name"],
             })
             if replay:
                 env["VERIF_REPLAY"] = replay
